@@ -151,6 +151,7 @@ RoundTrip ==
 RAccounted == Accounted
 RMeaning == MachineIsMeaning
 
-RCaseRec == [cfg |-> cfg.id, env |-> env, calls |-> hist, open |-> [k \in 1..Len(hist) |-> FALSE], want |-> want]
+RCaseRec == [cfg |-> cfg.id, env |-> env, calls |-> hist, open |-> [k \in 1..Len(hist) |-> FALSE], want |-> want,
+             inputs |-> [k \in 1..Len(hist) |-> MeaningViaInputs(decl, allowed, greedy, env, hist[k].argv).oc]]
 REmit == (Terminal /\ hist # <<>>) => PrintT("CASE " \o ToJson(RCaseRec))
 =============================================================================
